@@ -5,11 +5,12 @@ Require Import MQ.Arith64 MQ.Arith64Facts MQ.Types MQ.State MQ.Model MQ.Exec MQ.
 Import ListNotations.
 Open Scope N_scope.
 
-(* after the cursor load of an attempt that will commit with a store (single mode or view) *)
+(* after the cursor load of an attempt that behaves as the only consumer of its stream (single mode, or it found the
+   consumer count at one before loading the cursor, or view) *)
 Definition ap_phase (A : agent) : bool :=
   match a_pc A with
-  | R3 => r_am (a_r A)
-  | pc => (in_att pc && r_am (a_r A)) || in_view pc
+  | R3 | R1n | R2n => false
+  | pc => (in_att pc && (r_am (a_r A) || r_single (a_r A))) || in_view pc
   end.
 
 Lemma ap_notified A b : ap_phase (set_a_notified b A) = ap_phase A.
@@ -18,7 +19,7 @@ Proof. destruct A; reflexivity. Qed.
 Lemma micro_ap c me A S o :
   micro c me A S = Some o -> ctl_ok A = true -> ap_phase (o_a o) = true ->
   a_sid (o_a o) = a_sid A /\ gpos (o_s o) (a_sid A) = gpos S (a_sid A) /\
-  (ap_phase A = true \/ a_pc A = R2) /\
+  (ap_phase A = true \/ (a_pc A = R2 \/ a_pc A = R2n)) /\
   (forall a' A', o_new o = Some (a', A') -> ap_phase A' = false).
 Proof.
   intros H Q. destruct A as [role alive multi sid tok pc stack R notified parked].
@@ -32,5 +33,5 @@ Proof.
                   | solve [intros X; repeat split; auto; try (intros ? ? Y; discriminate Y);
                            match goal with E : r_am _ = _ |- _ => rewrite E in X; cbn in X; first [discriminate X | left; exact X] end]
                   | solve [intros X; repeat split; auto; try (intros ? ? Y; discriminate Y); left;
-                           destruct (r_am R); cbn in X |- *; first [reflexivity | discriminate X | exact X]] ] ].
+                           destruct (r_am R), (r_single R); cbn in X |- *; first [reflexivity | discriminate X | exact X]] ] ].
 Qed.
